@@ -529,6 +529,71 @@ def _linear_vars(args):
     """the arguments are pairwise different variables (the pattern matches every fact and an answer IS the fact)"""
     return all(a[0] == 'v' for a in args) and len({a[1] for a in args}) == len(args)
 
+class _Cyclic(Exception):
+    pass
+
+def _walk(t, s):
+    while t[0] == 'v' and t[1] in s:
+        t = s[t[1]]
+    return t
+
+def _occurs(v, t, s):
+    t = _walk(t, s)
+    if t[0] == 'v':
+        return t[1] == v
+    if t[0] == 'f':
+        return any(_occurs(v, a, s) for a in t[2])
+    return False
+
+def _unify(a, b, s):
+    a = _walk(a, s); b = _walk(b, s)
+    if a[0] == 'v' and b[0] == 'v' and a[1] == b[1]:
+        return True
+    if a[0] == 'v' or b[0] == 'v':
+        if b[0] != 'v' or (a[0] == 'v' and a[1] >= 1000):
+            a, b = b, a                          # b is the variable that gets bound
+        if _occurs(b[1], a, s):
+            raise _Cyclic()
+        s[b[1]] = a
+        return True
+    if a[0] != b[0]:
+        return False
+    if a[0] == 'f':
+        return a[1] == b[1] and len(a[2]) == len(b[2]) and all(_unify(x, y, s) for x, y in zip(a[2], b[2]))
+    return a[1] == b[1]
+
+def _subst(t, s):
+    t = _walk(t, s)
+    if t[0] == 'f':
+        return ['f', t[1], [_subst(a, s) for a in t[2]]]
+    return t
+
+def _shift(t):
+    if t[0] == 'v':
+        return ['v', 1000 + t[1]]
+    if t[0] == 'f':
+        return ['f', t[1], [_shift(a) for a in t[2]]]
+    return t
+
+def expected_answer(pat_args, row):
+    """what a goal with the arguments pat_args answers on the stored fact `row` (a read-back row): the arguments under the
+    most general unifier with a renamed copy of the fact, canonical; None = no match.  Written down independently of the
+    engine and of the Coq model (first-order unification on the JSON terms); _Cyclic = outside the specified domain."""
+    fact = [_shift(terms.obs_term(o)) for o in row]
+    if len(fact) != len(pat_args):
+        return None
+    sub = {}
+    for p_, f_ in zip(pat_args, fact):
+        if not _unify(p_, f_, sub):
+            return None
+    return canon_args([terms.term_obs(_subst(p_, sub)) for p_ in pat_args])
+
+def expected_answers(pat_args, rows):
+    try:
+        return [a for a in (expected_answer(pat_args, r) for r in rows) if a is not None]
+    except (_Cyclic, RecursionError):
+        return None
+
 def list_oracle(case, io):
     """the property's own conditions that can be stated on the implementation alone"""
     keys = [tuple(k) for k in case['keys']]
@@ -536,6 +601,8 @@ def list_oracle(case, io):
     cur_key = {}
     snap = {}          # query cursor -> [facts of its predicate when it was started (first next), answers so far, linear?]
     pat_of = {}
+    # in histories with operations over the variables of open cursors a pattern can be bound from outside: no prediction
+    opened_case = has_open(case['events'])
     for i, (e0, o) in enumerate(zip(case['events'], io)):
         if o == ['deep']:
             return None
@@ -562,25 +629,40 @@ def list_oracle(case, io):
             # had facts at its first next(); with an all-variables pattern its answers are exactly those facts, in order
             c = e[1]
             if c not in snap:
-                snap[c] = [prev[keys.index(cur_key[c][0])], 0, _linear_vars(pat_of[c])]
+                facts0 = prev[keys.index(cur_key[c][0])]
+                # round 4: for ANY pattern, the answers the matching facts of the snapshot give, in order (unification
+                # written down here, independent of engine and model); None = abstain (a match would build a cyclic term)
+                snap[c] = [facts0, 0, _linear_vars(pat_of[c]), None if opened_case else expected_answers(pat_of[c], facts0)]
             if r[0] == 'ans':
-                facts, n, lin = snap[c]
+                facts, n, lin, exp = snap[c]
                 if n >= len(facts):
                     return ('event %d %r: answer number %d of a query whose predicate had %d facts when it started (%r)'
                             % (i, e, n + 1, len(facts), r[1]))
                 if lin and r[1] != facts[n]:
                     return ('event %d %r: answer number %d of an all-variables query is %r, the fact at that position when '
                             'it started was %r' % (i, e, n + 1, r[1], facts[n]))
+                if exp is not None and n < 10 ** 8:
+                    if n >= len(exp):
+                        return ('event %d %r: answer number %d (%r) of a query of which only %d facts of the list it started on match'
+                                % (i, e, n + 1, r[1], len(exp)))
+                    if r[1] != exp[n]:
+                        return ('event %d %r: answer number %d is %r; the %d. matching fact of the list the query started on gives %r'
+                                % (i, e, n + 1, r[1], n + 1, exp[n]))
                 snap[c][1] = n + 1
             elif r == ['end'] and snap[c][2] and snap[c][1] < len(snap[c][0]):
                 return ('event %d %r: an all-variables query ended after %d answers, its predicate had %d facts when it started'
                         % (i, e, snap[c][1], len(snap[c][0])))
+            elif r == ['end'] and snap[c][3] is not None and snap[c][1] < len(snap[c][3]):
+                return ('event %d %r: the query ended after %d answers; %d facts of the list it started on match (next: %r)'
+                        % (i, e, snap[c][1], len(snap[c][3]), snap[c][3][snap[c][1]]))
             if r == ['end']:
                 snap[c][1] = 10 ** 9      # exhausted: any further answer is one too many
                 snap[c][2] = False
+                snap[c][3] = None
         if e[0] in ('close', 'drop') and e[1] in snap:
             snap[e[1]][1] = 10 ** 9       # closed: any further answer is one too many
             snap[e[1]][2] = False
+            snap[e[1]][3] = None
         for j, kk in enumerate(keys):
             changed = rb[j] != prev[j]
             if e[0] == 'assert' and kk == k:
@@ -614,6 +696,10 @@ def list_oracle(case, io):
             kk = (e[1], len(e[2]))
             if kk in keys and len(r[1]) > len(prev[keys.index(kk)]):
                 return 'event %d: more answers than facts' % i
+            if kk in keys and e0[0] != 'open':
+                exp = expected_answers(e[2], prev[keys.index(kk)])
+                if exp is not None and r[1] != exp:
+                    return ('event %d %r: answers %r; the matching facts of the list, in order, give %r' % (i, e, _short(r[1]), _short(exp)))
         prev = rb
     return None
 
@@ -1767,6 +1853,19 @@ def gen_dbprog(rng, loopy=0.6, ctrl=0.5):
         case['clear_first'] = True
         case['nilq'] = rng.choice([None, 'pat', 'fact'])
         case['api_nil'] = rng.choice(['atom', 'ATOM_NIL', 'makelist'])
+    return case
+
+def gen_dbprog_grown(rng, loopy=0.6, ctrl=0.3):
+    """round 4: a generated program whose init clause (>= 3 asserts) is run 4-8 times before the main clause, so that the
+    predicates the main clause enumerates, updates and queries with bound arguments hold about 12-40 facts (one clause body
+    cannot assert more than ~18: CPython's limit of nested blocks); compared with DbProg like every other program"""
+    for _ in range(50):
+        case = gen_dbprog(rng, loopy, ctrl)
+        if sum(1 for g in case['clauses'][0]['body'] if g[0] == 'as') >= 3:
+            break
+    k = rng.choice([4, 5, 6, 8])
+    case['queries'] = [case['queries'][0]] * k + case['queries'][1:]
+    case['grown'] = k
     return case
 
 def dbprog_corpus():
